@@ -27,7 +27,7 @@ REQUIRED_COUNTS = {'history_value_checks': 200, 'kind:tensor': 1, 'kind:operator
                    'breakpoints_bisected': 5, 'operand_checked_bit_identical': 100, 'exact_rank_clause_applied': 20}
 LINE_FUNCS = ['round_tt', 'lr_orthogonal', 'TT.round', 'rank_chop']
 CASE_TIMEOUT = {'quick': 120, 'thorough': 300}
-DTS = ['f64', 'f64', 'c128', 'f32']
+DTS = ['f64', 'f64', 'c128', 'f32', 'c64']
 KINDS = ['gauss', 'inflated', 'graded', 'gauge', 'overparam', 'cancel', 'zero', 'bigrank', 'gauge_int']
 
 
@@ -40,7 +40,7 @@ def cases(tier, seed):
         ttm = i % 4 == 3
         pool = (1, 2, 3, 4, 5) if d <= 4 else (1, 2, 3)
         cs.append({'gen': 'random', 'kind': KINDS[i % len(KINDS)], 'N': [rng.choice(pool) for _ in range(d)], 'M': [rng.choice((1, 2, 3) if d <= 4 else (1, 2)) for _ in range(d)] if ttm else None,
-                   'dtype': DTS[(i // 9) % 4], 'eps': [0.0, 1e-14, 1e-12, 1e-8, 1e-4, 1e-2, 0.1, 0.5][(i // 2) % 8] if i % 3 else 10 ** rng.uniform(-13, -0.3),
+                   'dtype': DTS[(i // 9) % 5], 'eps': [0.0, 1e-14, 1e-12, 1e-8, 1e-4, 1e-2, 0.1, 0.5][(i // 2) % 8] if i % 3 else 10 ** rng.uniform(-13, -0.3),
                    'rmax': ['none', 'none', 'int', 'list'][(i // 7) % 4]})
     for i in range(150 if not T else 2500):
         d = rng.choice([2, 3, 3, 4, 5])
